@@ -324,6 +324,7 @@ Lemma dm_post_sync fl n start fsid fin es s :
   dm_synced (f_fs fl) s -> dm_synced (f_fs fl) (fst (dm_post fl n start fsid fin es s)).
 Proof.
   intros [H0 Hc]. unfold dm_post. destruct (assoc n (m_reg s)) as [r|]; [|now split].
+  destruct (negb (Z.eqb (r_kind r) 0)); [now split|].
   set (chk := if start then _ else _).
   assert (Hchk : forall s1, chk = Some s1 -> dm_synced (f_fs fl) s1).
   { subst chk. intros s1. destruct start.
@@ -476,9 +477,9 @@ Lemma job_run_sync fl j h : hub_synced fl h -> hub_synced fl (fst (job_run fl j 
 Proof.
   intros H. pose proof H as (Hd & Hj & Hs & Hp). unfold job_run.
   destruct (assoc j (d_jcfg (h_job h))) as [c|]; [|exact H].
-  destruct (assoc (j_src c) (m_reg (h_dm h))) as [rs|]; [|cbn; now apply mk_sync].
+  destruct (usable (h_dm h) (j_src c)) as [rs|]; [|cbn; now apply mk_sync].
   destruct (changes _ _ _ _) as [out next]. destruct out as [|e out]; [cbn; now apply mk_sync|].
-  destruct (assoc (j_sink c) (m_reg (h_dm h))) as [rk|]; [|cbn; now apply mk_sync].
+  destruct (usable (h_dm h) (j_sink c)) as [rk|]; [|cbn; now apply mk_sync].
   cbn. apply mk_sync; auto. now apply dm_store_sync'.
 Qed.
 
@@ -622,6 +623,7 @@ Proof.
   - destruct H as (q' & -> & Hq). unfold dm_pubns. cbn. destruct (assoc n (m_reg s)); (split; [reflexivity | now exists q']).
   - unfold dm_post. assert (Hr : m_reg s' = m_reg s) by (destruct H as (q' & -> & _); reflexivity). rewrite Hr.
     destruct (assoc n (m_reg s)) as [r|]; [|now split].
+    destruct (negb (Z.eqb (r_kind r) 0)); [now split|].
     assert (Hf : m_fs s' = m_fs s) by (destruct H as (q' & -> & _); reflexivity). rewrite Hf.
     set (chk := if start then _ else _). set (chk' := if start then _ else _).
     assert (Hchk : match chk, chk' with Some a, Some b => dsim a b | None, None => True | _, _ => False end).
@@ -668,10 +670,11 @@ Proof.
   destruct (assoc j (d_jcfg (h_job h))) as [c|]; [|now split].
   assert (Hr : m_reg (h_dm h') = m_reg (h_dm h)) by (destruct Hd as (q' & -> & _); reflexivity).
   assert (Hdt : d_data (h_dm h') = d_data (h_dm h)) by (destruct Hd as (q' & -> & _); reflexivity).
-  rewrite Hr, Hdt, <- Hs, <- Hp.
-  destruct (assoc (j_src c) (m_reg (h_dm h))) as [rs|]; [|cbn; split; [reflexivity | now repeat split]].
+  assert (Hu : forall n, usable (h_dm h') n = usable (h_dm h) n) by (intros n; unfold usable; now rewrite Hr).
+  rewrite !Hu, Hdt, <- Hs, <- Hp.
+  destruct (usable (h_dm h) (j_src c)) as [rs|]; [|cbn; split; [reflexivity | now repeat split]].
   destruct (changes _ _ _ _) as [out next]. destruct out as [|e out]; [cbn; split; [reflexivity | now repeat split]|].
-  destruct (assoc (j_sink c) (m_reg (h_dm h))) as [rk|]; [|cbn; split; [reflexivity | now repeat split]].
+  destruct (usable (h_dm h) (j_sink c)) as [rk|]; [|cbn; split; [reflexivity | now repeat split]].
   cbn. split; [reflexivity|]. split; [|now repeat split]. cbn. now apply dm_store_sim.
 Qed.
 
@@ -849,6 +852,7 @@ Proof.
     eapply istep_trans; [|apply assert_uri_istep]. apply istep_frame; reflexivity.
   - unfold dm_pubns. destruct (assoc n (m_reg s)); [apply istep_frame; reflexivity | apply istep_refl].
   - unfold dm_post. destruct (assoc n (m_reg s)) as [r|]; [|apply istep_refl].
+    destruct (negb (Z.eqb (r_kind r) 0)); [apply istep_refl|].
     set (chk := if start then _ else _).
     assert (Hchk : forall s1, chk = Some s1 -> istep s s1).
     { subst chk. intros s1. destruct start; [intros [= <-]; apply set_fs_istep|].
@@ -983,6 +987,7 @@ Proof.
       * cbn in Heq. eapply Hinj; eauto.
       * eapply Hinj; eauto.
   - unfold dm_post. destruct (assoc n (m_reg s)) as [r|]; [|apply rstep_refl].
+    destruct (negb (Z.eqb (r_kind r) 0)); [apply rstep_refl|].
     set (chk := if start then _ else _).
     assert (Hchk : forall s1, chk = Some s1 -> rstep s s1).
     { subst chk. intros s1. destruct start; [intros [= <-]; apply set_fs_rstep|].
@@ -1044,9 +1049,9 @@ Proof.
     + destruct (assoc j (d_jcfg (h_job h))); cbn; (split; [exact H | apply dm_le_refl]).
     + cbn. split; [exact H | apply dm_le_refl].
     + unfold job_run. destruct (assoc j (d_jcfg (h_job h))) as [c|]; [|split; [exact H | apply dm_le_refl]].
-      destruct (assoc (j_src c) (m_reg (h_dm h))) as [rs|]; [|cbn; split; [exact H | apply dm_le_refl]].
+      destruct (usable (h_dm h) (j_src c)) as [rs|]; [|cbn; split; [exact H | apply dm_le_refl]].
       destruct (changes _ _ _ _) as [out next]. destruct out as [|e out]; [cbn; split; [exact H | apply dm_le_refl]|].
-      destruct (assoc (j_sink c) (m_reg (h_dm h))) as [rk|]; [|cbn; split; [exact H | apply dm_le_refl]].
+      destruct (usable (h_dm h) (j_sink c)) as [rk|]; [|cbn; split; [exact H | apply dm_le_refl]].
       cbn. apply safe_by; [exact H | now apply dm_store_sync' | apply dm_store_istep | apply dm_store_rstep].
   - cbn. split; [exact H | apply dm_le_refl].
   - destruct (prov_step (f_prov fl) o (h_prov h)) as [p r]. cbn. split; [exact H | apply dm_le_refl].
@@ -1098,4 +1103,13 @@ Proof.
   unfold identical, content_eqb, mkc. destruct fl as [lk on]. cbn.
   destruct (t <? 0), (t' <? 0), d, d', lk; cbn; rewrite ?andb_true_r, ?andb_false_r; try reflexivity;
     unfold pval_eqb; cbn; destruct on; cbn; rewrite ?andb_true_r; reflexivity.
+Qed.
+
+(** ** the persisted dataset record carries every field of the live one (id, public namespaces, kind, configuration)
+    after every operation - for EVERY variant of the flags and every history with restarts and kills *)
+Theorem record_complete fl ops :
+  let s := h_dm (fst (run fl ops hub_init)) in m_reg s = d_reg s.
+Proof.
+  intros s. destruct (run_safe fl ops hub_init (dm_init_safe fl)) as [(Hs & _) _]. fold s in Hs.
+  now destruct Hs as [(H & _) _].
 Qed.
